@@ -50,9 +50,9 @@ def gen_library(rng):
 
 def gen_case(rng):
     env = c13.gen_env(rng, nmax=5, nch_max=24)
-    small = rng.random() < 0.07                                      # small enough for the spectrally separated GGN
+    small = rng.random() < 0.1                                       # small enough for the GGN methods
     if small:
-        env['nsites'], env['nch'] = 2, rng.randint(5, 7)
+        env['nsites'], env['nch'] = 2, rng.randint(5, 8)
         env['lines'] = [['A', 'B', [round(rng.uniform(20, 110), 1)], [round(rng.uniform(20, 110), 1)]]]
     if env['nsites'] >= 3 and rng.random() < 0.15 and len(env['lines']) > 1:
         env['lines'].pop(rng.randrange(len(env['lines'])))          # may disconnect the mesh: NO_PATH
@@ -114,18 +114,22 @@ def gen_sim(rng, reqs, band, env=None):
     """simulation parameters (process-wide SimParams): the three NLI methods, with the NLI evaluated on every channel, on
     a list of channels or on a number of channels spread over the comb (the comb differs from request to request).
     ggn_spectrally_separated costs ~0.03 s x computed channels x channels per fibre: it is only drawn for small cases."""
-    r = rng.random()
-    small = env is not None and env['nsites'] == 2 and env['nch'] <= 7 and len(reqs) <= 4 \
-        and all(len(sp) <= 2 for ln in env['lines'] for sp in ln[2:4])
-    if r < 0.6 and not small:
-        return None                                                  # defaults: gn_model_analytic
-    method = 'ggn_spectrally_separated' if small else rng.choice(['gn_model_analytic', 'ggn_approx', 'ggn_approx', 'ggn_approx'])
-    nli = {'method': method, 'dispersion_tolerance': 4 if small else rng.choice([1, 2]), 'phase_shift_tolerance': 0.1}
+    small = env is not None and env['nsites'] == 2 and env['nch'] <= 8 and len(reqs) <= 4 \
+        and all(len(sp) <= 1 for ln in env['lines'] for sp in ln[2:4])
+    if not small:
+        # the GGN integrals cost 0.05-0.5 s per fibre and propagation: only drawn for small cases
+        if rng.random() < 0.85:
+            return None                                              # defaults: gn_model_analytic
+        method = 'gn_model_analytic'
+    else:
+        method = rng.choice(['ggn_spectrally_separated', 'ggn_approx', 'ggn_approx'])
+    nli = {'method': method, 'dispersion_tolerance': 4 if method == 'ggn_spectrally_separated' else rng.choice([1, 2]),
+           'phase_shift_tolerance': 0.1}
     fits = [r_['path-constraints']['te-bandwidth'].get('max-nb-of-channel')
             or int(band // r_['path-constraints']['te-bandwidth']['spacing']) for r_ in reqs]
     k = rng.random()
-    if k < 0.45 or small:
-        nli['computed_number_of_channels'] = rng.randint(2, 3 if small else 7)
+    if k < 0.5 or method == 'ggn_spectrally_separated':
+        nli['computed_number_of_channels'] = rng.randint(2, 3 if method == 'ggn_spectrally_separated' else 7)
     elif k < 0.75:
         top = max(2, min(fits))                                      # listed channels must exist in every comb
         nli['computed_channels'] = sorted(set([1, rng.randint(1, top), top]))
@@ -182,7 +186,7 @@ def gen_sync_case(rng):
     reqs = [reqs[k] for k in order]
     case = {'kind': 'batch', 'env': env, 'modes': modes, 'requests': reqs, 'sync': sync,
             'perm_seed': rng.randrange(1 << 30)}
-    case['sim'] = gen_sim(rng, reqs, band, None) if rng.random() < 0.3 else None
+    case['sim'] = gen_sim(rng, reqs, band, None)
     return case
 
 
@@ -419,7 +423,9 @@ def run_api(E, reqs, omit):
 
 def drive(case):
     from gnpy.core.parameters import SimParams
+    import warnings
     logging.disable(logging.CRITICAL)
+    warnings.filterwarnings('ignore', message='Polyfit may be poorly conditioned')
     SimParams.set_params(copy.deepcopy(case.get('sim') or {}))
     try:
         return _drive(case)
@@ -505,10 +511,15 @@ def _drive(case):
         obs['runs'].append(one('batch', reqs))
     obs['amp_traces'] = tracer.result()
     prng = random.Random(case['perm_seed'])
-    for k in range(3):
+    ggn = ((case.get('sim') or {}).get('nli_params') or {}).get('method', '').startswith('ggn')
+    for k in range(1 if ggn else 3):
         p = reqs[:]
         prng.shuffle(p)
         obs['runs'].append(one(f'perm{k}', p))
+    if ggn:
+        obs['nocopy'] = {'sigs_differ': None, 'net_changed': None}
+        obs['amp_traces_nocopy'] = []
+        return obs
     # sensitivity: the same batch with the per-request deepcopy disabled, on a rebuilt network
     E2 = c13.Env(case['env'], [c13.clean_mode(m) for m in case['modes']])
     j20, d20 = snapshot(E2.net)
